@@ -156,7 +156,7 @@ func genC16(c *Ctx) {
 	h := c16Hub(c)
 	methods := []string{"GET", "HEAD", "OPTIONS", "POST", "PUT", "PATCH", "DELETE"}
 	paths := []string{"/datasets/a", "/datasets/a/changes", "/datasets/ab", "/datasets", "/jobs", "/job/x/run", "/"}
-	resources := []string{"/datasets/a", "/datasets/a*", "/datasets*", "/*", "/jobs", "/job/x/run", "/datasets/a/changes", "*", ""}
+	resources := []string{"/datasets/a", "/datasets/a*", "/datasets/a/*", "/datasets*", "/*", "/jobs", "/job/x/run", "/datasets/a/changes", "*", ""}
 	entries := []M{}
 	for _, r := range resources {
 		for _, a := range []string{"read", "write"} {
